@@ -10,7 +10,7 @@ import drive
 import gen
 from codec import sansldap
 from sansldap import asn1 as A
-from sansldap.asn1 import ASN1Reader, ASN1Tag, ASN1Writer, TagClass
+from sansldap.asn1 import ASN1Reader, ASN1Tag, ASN1Writer, TagClass, TypeTagNumber
 
 LEAN_TARGETS = ["Verif.Props.C07", "Verif.Props.C07More"]
 SECOND_TIE = {
@@ -309,6 +309,35 @@ def run(ctx):
                     violations.append({"key": None, "what": f"a value of {n} content octets written by the writer is not read back from a {kind} buffer: {why}",
                                        "input_kind": kind, "content_octets": n, "tag": None if tag is None else list(tag), "hex": data[:40].hex()})
                     break
+
+    # ---- octet strings under EVERY tag incl. the universal ones in constructed form (24 = constructed OCTET STRING, 30, 31 …), whose CONTENT is
+    # itself a run of well-formed TLVs (an encoded value stored inside an octet string): read back as the very same octets
+    inner_w = ASN1Writer()
+    inner_w.write_octet_string(b"A")
+    inner_w.write_octet_string(b"")
+    tlvs = bytes(inner_w.get_data())                      # 04 01 41 04 00
+    for content in (tlvs, tlvs[:3], tlvs[3:], tlvs * 3, b"\x04\x00", b"\x04\x81\x01x", b"\x02\x01\x05", b"\x30\x03\x04\x01a", b"\x24\x03\x04\x01a"):
+        for tag in (ASN1Tag.universal_tag(TypeTagNumber.OCTET_STRING, True), ASN1Tag.universal_tag(TypeTagNumber.OCTET_STRING, False),
+                    ASN1Tag.universal_tag(TypeTagNumber.SEQUENCE, True), ASN1Tag.universal_tag(TypeTagNumber.SET, True),
+                    ASN1Tag(TagClass.CONTEXT_SPECIFIC, 4, True), ASN1Tag(TagClass.APPLICATION, 4, True), ASN1Tag(TagClass.PRIVATE, 36, True)):
+            evaluations += 1
+            hist["octets-that-look-like-tlvs"] += 1
+            try:
+                w = ASN1Writer()
+                w.write_octet_string(content, tag=tag)
+                w.write_boolean(True)
+                r = ASN1Reader(bytes(w.get_data()))
+                h = r.peek_header()
+                back = [r.read_octet_string(tag=tag), None]
+                r2 = ASN1Reader(bytes(w.get_data()))
+                back[1] = r2.read_octet_string(header=r2.peek_header())
+                ok = back == [content, content] and r.read_boolean() is True and h.length == len(content)
+                why = f"read back {[bytes(b).hex() for b in back]}"
+            except BaseException as e:  # noqa: BLE001
+                ok, why = False, f"raised {type(e).__name__}: {e}"[:200]
+            if not ok:
+                violations.append({"key": None, "what": f"an octet string whose content looks like encoded TLVs, written under tag {tuple(tag)}, is not read back "
+                                   f"as the same octets: {why}", "content": content.hex(), "tag": list(tag)})
 
     # ---- nested sequences / sets written through the writer API and read back through sub-readers
     def build(w, depth):
